@@ -399,3 +399,43 @@ Proof.
   assert (Hs : forall sg, 0 < hw (shift sg (fst s) (snd s) (midh p q))) by (intros sg; unfold shift; unfold hw at 1; cbn [snd]; nia).
   cbn [fst snd] in H. destruct (existsb _ _); cbn [In] in H; [destruct H as [<- | [<- | [<- | []]]] | destruct H as [<- | []]]; cbn [fst]; auto.
 Qed.
+
+(* ------------------------------------------------------------------ one of the facts of PredSound.realizable, proved:
+   a geometry without (non-empty) polygons has no 2-dimensional interior or boundary part, so for two lines II <= 1 *)
+Lemma loc_poly_empty_shell : forall p a, fst a = [] -> loc_poly p a <> Interior.
+Proof.
+  intros p [s hs] H. cbn [fst] in H. subst s. unfold loc_poly, poly_rings. cbn [fst snd].
+  match goal with |- (if ?c then _ else _) <> _ => destruct c end; cbv iota; [discriminate|].
+  assert (E : in_ring p [] = Exterior) by reflexivity. rewrite E. cbn [location_eqb andb]. cbv iota. discriminate.
+Qed.
+Lemma loc_dim_interior2 : forall r g p, loc_dim r g p = (Interior, 2) ->
+  existsb (fun a => location_eqb (loc_poly p a) Interior) (polys_of g) = true.
+Proof.
+  intros r g p. unfold loc_dim. destruct (existsb (fun a => location_eqb (loc_poly p a) Interior) (polys_of g)); [reflexivity|].
+  destruct (existsb (fun a => location_eqb (loc_poly p a) Boundary) (polys_of g)); [discriminate|].
+  destruct (loc_lines r p (lines_of g)); try discriminate. destruct (existsb _ _); discriminate.
+Qed.
+Lemma no_area_no_interior2 : forall r g q, existsb nonempty_poly (polys_of g) = false -> loc_dim_h r g q <> (Interior, 2).
+Proof.
+  intros r g q H E. unfold loc_dim_h in E. apply loc_dim_interior2 in E. rewrite polys_of_map in E.
+  apply existsb_exists in E. destruct E as (a' & Ha' & E). apply in_map_iff in Ha'. destruct Ha' as (a & <- & Ha).
+  assert (Hne : nonempty_poly a = false).
+  { destruct (nonempty_poly a) eqn:En; [|reflexivity]. assert (existsb nonempty_poly (polys_of g) = true) by (apply existsb_exists; exists a; auto). congruence. }
+  unfold nonempty_poly, poly_is_empty in Hne. destruct a as [s hs]. cbn [fst] in Hne. destruct s; [|discriminate].
+  assert (Hl : forall l, location_eqb l Interior = true -> l = Interior) by (intros []; [reflexivity | discriminate | discriminate]).
+  apply Hl in E. revert E. apply loc_poly_empty_shell. reflexivity.
+Qed.
+Theorem oracle_lines_II : forall r A B, existsb nonempty_poly (polys_of A) = false -> mentry (relate_oracle r A B) 0 0 <= 1.
+Proof.
+  intros r A B H. destruct (oracle_entry_is_max r A B 0 0) as ((_ & Hle) & _ & Hw & _); auto.
+  destruct (Z.eq_dec (mentry (relate_oracle r A B) 0 0) 2) as [E2|]; [|lia]. exfalso.
+  destruct Hw as [(Hc & _) | (w & _ & _ & Ha & _ & Ho)]; [lia | discriminate |].
+  rewrite E2 in Ho. destruct (Ho eq_refl) as (HoA & _). unfold loc_rule_h in Ha.
+  apply (no_area_no_interior2 r A (fst w) H). unfold open_loc in HoA.
+  destruct (loc_dim_h r A (fst w)) as [l d]. cbn [fst snd] in *. destruct l; cbn in Ha; try discriminate.
+  apply Z.eqb_eq in HoA. subst d. reflexivity.
+Qed.
+Lemma dim_real_le1 : forall g, dim_real g <= 1 -> existsb nonempty_poly (polys_of g) = false.
+Proof. intros g. unfold dim_real. destruct (existsb nonempty_poly (polys_of g)); [lia | reflexivity]. Qed.
+Corollary oracle_realizable_LL : forall r A B, dim_real A = 1 -> dim_real B = 1 -> mentry (relate_oracle r A B) 0 0 <= 1.
+Proof. intros r A B HA _. apply oracle_lines_II. apply dim_real_le1. lia. Qed.
